@@ -298,8 +298,21 @@ impl<'a> Sampler<'a> {
                         Optionality::Optional => depth < 3 && (variant as usize + i) % 2 == 0,
                         Optionality::Default(_) => false,
                     };
-                    if matches!(c.opt, Optionality::Default(_)) && matches!(c.ty.kind, TyKind::Str(StrKind::Teletex)) {
-                        return Err("TeletexString DEFAULT (the generated default function panics in rasn 0.27's 4-octet TeletexString)".into());
+                    if matches!(c.opt, Optionality::Default(_)) {
+                        // the type of the component, looked up through references
+                        let mut k = &c.ty.kind;
+                        for _ in 0..8 {
+                            match k {
+                                TyKind::Ref { name, .. } => match self.env.get(name) {
+                                    Some((_, rt)) => k = &rt.kind,
+                                    None => break,
+                                },
+                                _ => break,
+                            }
+                        }
+                        if matches!(k, TyKind::Str(StrKind::Teletex | StrKind::Bmp)) {
+                            return Err("TeletexString / BMPString DEFAULT (the generated default function reads the literal as 4- / 2-octet units in rasn 0.27 and panics on other lengths: C07's finding)".into());
+                        }
                     }
                     if is_set && matches!(c.opt, Optionality::Default(_)) {
                         return Err("SET with a DEFAULT component (rasn's SET decoder reports an absent DEFAULT component as missing)".into());
